@@ -184,6 +184,7 @@ type LinkEdge struct {
 	RefSym    string
 	ImplSym   string
 	File      string // file of the directive, relative to the root
+	Exported  bool   // the body-less function is exported and called from main as well
 }
 
 type Program struct {
@@ -507,8 +508,14 @@ func (g *gen) genLinks() {
 		case "func":
 			edge.ImplSym = "ROOT/" + impl.name + ".hidden" + id
 			implF.add(g, fmt.Sprintf("func hidden%s(x int) int {\n\ttr.Raw(\"impl %s.hidden%s x=\" + tr.Itoa(x))\n\treturn x*3 + 1\n}", id, impl.name, id))
-			directive = fmt.Sprintf("//go:linkname ref%s %s\nfunc ref%s(x int) int", id, edge.ImplSym, id)
-			wrapper = fmt.Sprintf("\tr := ref%s(x)\n", id)
+			rn := "ref" + id
+			if ref.name != "main" && g.chance("exportedref", 50) {
+				// an exported reference is also called directly from another package
+				rn = "Ref" + id
+				edge.Exported = true
+			}
+			directive = fmt.Sprintf("//go:linkname %s %s\nfunc %s(x int) int", rn, edge.ImplSym, rn)
+			wrapper = fmt.Sprintf("\tr := %s(x)\n", rn)
 		case "val":
 			edge.ImplSym = "ROOT/" + impl.name + "." + tname + ".lval" + id
 			implF.add(g, fmt.Sprintf("type %s struct{ A, B int }\n\nfunc (t %s) lval%s(x int) int {\n\ttr.Raw(\"impl %s.%s.lval%s A=\" + tr.Itoa(t.A) + \" B=\" + tr.Itoa(t.B) + \" x=\" + tr.Itoa(x))\n\tt.A += 1000\n\treturn t.A*7 + t.B + x\n}", tname, tname, id, impl.name, tname, id))
@@ -535,6 +542,9 @@ func (g *gen) genLinks() {
 			wrapper = fmt.Sprintf("\tt := &%s{A: x, B: 2}\n\tr := ref%s(t, x)\n\tr = r*10 + t.A\n", rt, id)
 		}
 		edge.RefSym = "ref" + id
+		if edge.Exported {
+			edge.RefSym = "Ref" + id
+		}
 		edge.File = refF.name
 		if ref.name != "main" {
 			edge.File = ref.name + "/" + refF.name
@@ -593,7 +603,7 @@ func (g *gen) genInits(p *pkgB) {
 			case 5:
 				for _, e := range g.prog.Links {
 					if e.Ref == p.name {
-						fmt.Fprintf(&body, "\tLk%s(%q, 9)\n", strings.TrimPrefix(e.RefSym, "ref"), p.tag())
+						fmt.Fprintf(&body, "\tLk%s(%q, 9)\n", strings.TrimPrefix(strings.TrimPrefix(e.RefSym, "ref"), "Ref"), p.tag())
 						break
 					}
 				}
@@ -622,12 +632,15 @@ func (g *gen) genMain(p *pkgB) {
 		body.WriteString(")))\n")
 	}
 	for _, e := range g.prog.Links {
-		id := strings.TrimPrefix(e.RefSym, "ref")
+		id := strings.TrimPrefix(strings.TrimPrefix(e.RefSym, "ref"), "Ref")
 		if e.Ref == "main" {
 			fmt.Fprintf(&body, "\tLk%s(\"main\", 4)\n", id)
 		} else {
 			f.imports["ROOT/"+e.Ref] = true
 			fmt.Fprintf(&body, "\t%s.Lk%s(\"main\", 4)\n", e.Ref, id)
+			if e.Exported {
+				fmt.Fprintf(&body, "\ttr.Log(\"main\", \"call %s.%s -> %s\")\n\ttr.Raw(\"ret \" + tr.Itoa(%s.%s(6)))\n\tfv%s := %s.%s\n\ttr.Raw(\"ret \" + tr.Itoa(fv%s(8)))\n", e.Ref, e.RefSym, strings.TrimPrefix(e.ImplSym, "ROOT/"), e.Ref, e.RefSym, id, e.Ref, e.RefSym, id)
+			}
 		}
 	}
 	body.WriteString("\ttr.Release(\"main.main\")\n\ttr.Log(\"main\", \"main.main ends\")\n")
